@@ -168,7 +168,9 @@ func (m *RefLockDB) Lock(client string, c Cmd) []Reply {
 			}
 			if h.Depth < 0xff && h.Depth <= int(c.Rcount) && c.TimeoutFlag&TFlagPriority == 0 {
 				if c.Expried == 0 {
-					return []Reply{{client, c.Req, SUCCED, d, h.Depth, false}}
+					// answered SUCCED without adding depth; a value operation it carries belongs to a successful
+					// request and is applied (C15)
+					return []Reply{{client, c.Req, SUCCED, d, h.Depth, true}}
 				}
 				h.Depth++
 				h.Count, h.Rcount, h.Req, h.Client, h.TFlag = c.Count, c.Rcount, c.Req, client, c.TimeoutFlag
